@@ -166,11 +166,23 @@ package pebbledb
 //@   include snapshotproto
 //@   ensures [C11.snap] true
 
+// C08 (exact ⊆ full): before the record is fetched, a hit that was not seen before is dropped only when its packed
+// entropy lies outside the tolerance MatchSignature itself will apply (the signature's own, or the scanner's when
+// the signature carries none) - the pre-filter never drops what exact mode would report.
+//@ pred effTol(own float64, dflt float64) = ite(own == 0.0, dflt, own)
+// decodeIndexValue only reads its argument.
+//@ func decodeIndexValue
+//@   ensures [C08.prefilter] true
 //@ func (*PebbleScanner).ScanTopologyWithSnapshot$1
-//@   protocol-only C06 C07 C10 C11
+//@   protocol-only C06 C07 C08 C10 C11
 //@   noframe
 //@   include snapshotproto
 //@   ensures [C11.snap] true
+//@   ghost fetched bool
+//@   init fetched = false
+//@   call (*github.com/cockroachdb/pebble.Snapshot).Get update fetched = true
+//@   ensures [C08.threshold] len(*results) >= old(len(*results)) && forall k in old(len(*results))..len(*results) :: unit((*results)[k].Confidence) && (*results)[k].Confidence >= *threshold
+//@   return-ensures [C08.prefilter] !fetched && !old((*seen)[sigID]) ==> isPacked && fabs(sigScore - (*topo).EntropyScore) > effTol(sigTol, *tolerance)
 
 // RebuildIndexes commits through this closure: every chunk commit is durable.
 //@ func (*PebbleScanner).RebuildIndexes$1
